@@ -44,6 +44,12 @@ Theorem C07_until_end_example :
 Proof. exact (until_end_example ). Qed.
 Print Assumptions C07_until_end_example.
 
+Theorem C07_include_name_example :
+  include_name (lit "+a.txt") = Some (lit "a.txt") /\ include_name (lit "++a.txt  ") = Some (lit "a.txt") /\ include_name (lit "+ dir/a b.txt ") = Some (lit "dir/a b.txt")
+  /\ include_name (lit " +a.txt") = None /\ include_name (lit "C1 1 0 0 0") = None.
+Proof. exact (include_name_example ). Qed.
+Print Assumptions C07_include_name_example.
+
 Theorem C07_passthrough_fixpoint items : Forall instr_tokens_ok items ->
   echo_file (map join_sp (lex (echo_file (map join_sp items)))) = echo_file (map join_sp items).
 Proof. exact (passthrough_fixpoint items). Qed.
